@@ -315,23 +315,40 @@ theorem encAdopt_inv_of_range {s : EncSt} (hi : EncInv s) {o : EncObs} (hr : obs
   · show o.forceChannels = -1000 ∨ (1 ≤ o.forceChannels ∧ o.forceChannels ≤ s.channels)
     omega
 
+/-- A refused frame size: the observed state is the old one, possibly with `rangeFinal` cleared. -/
+theorem encodeContract_badsize {s : EncSt} {f b ret : Int} {o : EncObs} {fmt : Nat}
+    (h0 : frameSizeSelect f s.variableDuration s.fs ≤ 0) (h : encodeContract s f b ret o fmt = none) :
+    o = encObserve s ∨ o = { encObserve s with rangeFinal := 0 } := by
+  unfold encodeContract at h
+  simp only [] at h
+  rw [if_pos h0] at h
+  by_cases hr : ret ≠ -1
+  · rw [if_pos hr] at h; cases h
+  · rw [if_neg hr] at h
+    by_cases hf : fmt = 2
+    · rw [if_pos hf] at h
+      by_cases ho : o ≠ { encObserve s with rangeFinal := 0 }
+      · rw [if_pos ho] at h; cases h
+      · exact Or.inr (Decidable.not_not.mp ho)
+    · rw [if_neg hf] at h
+      by_cases ho : o ≠ encObserve s
+      · rw [if_pos ho] at h; cases h
+      · exact Or.inl (Decidable.not_not.mp ho)
+
 /-- An encode call that satisfies the monitored contract keeps the invariant. -/
-theorem encAdopt_inv {s : EncSt} (hi : EncInv s) {f b ret : Int} {o : EncObs}
-    (h : encodeContract s f b ret o = none) : EncInv (encAdopt s o) := by
+theorem encAdopt_inv {s : EncSt} (hi : EncInv s) {f b ret : Int} {o : EncObs} {fmt : Nat}
+    (h : encodeContract s f b ret o fmt = none) : EncInv (encAdopt s o) := by
   have same : ∀ o', o' = encObserve s ∨ o' = { encObserve s with rangeFinal := 0 } → EncInv (encAdopt s o') := by
     obtain ⟨⟨c1, c2, c3, c4, c5, c6, c7, c8, c9, c10, c11, c12, c13, c14, c15, c16, c17, c18, c19, c20, c21, c22, c23⟩,
             ⟨d1, d2, d3, d4, d5, d6, d7, d8, d9, d10, d11, d12, d13, d14⟩⟩ := hi
     intro o' ho'
     rcases ho' with rfl | rfl <;> simp only [encAdopt, encObserve] <;>
       exact ⟨by constructor <;> inv_close, by constructor <;> inv_close⟩
+  by_cases h0 : frameSizeSelect f s.variableDuration s.fs ≤ 0
+  · exact same o (encodeContract_badsize h0 h)
   unfold encodeContract at h
   simp only [] at h
-  split at h
-  · split at h
-    · simp at h
-    · split at h
-      · simp at h
-      · rename_i ho; exact same o (Or.inl (by simpa using ho))
+  rw [if_neg h0] at h
   · split at h
     · split at h
       · simp at h
@@ -351,21 +368,16 @@ def settingsOf (s : EncSt) : List Int :=
    s.useInBandFEC]
 
 /-- **An encode call never changes a setting**: only a ctl can. -/
-theorem encAdopt_settings {s : EncSt} {f b ret : Int} {o : EncObs} (h : encodeContract s f b ret o = none) :
+theorem encAdopt_settings {s : EncSt} {f b ret : Int} {o : EncObs} {fmt : Nat} (h : encodeContract s f b ret o fmt = none) :
     settingsOf (encAdopt s o) = settingsOf s := by
   have key : o.forceChannels = s.forceChannels → settingsOf (encAdopt s o) = settingsOf s := by
     intro hf; simp only [settingsOf, encAdopt, hf]
   apply key
+  by_cases h0 : frameSizeSelect f s.variableDuration s.fs ≤ 0
+  · rcases encodeContract_badsize h0 h with ho | ho <;> rw [ho] <;> rfl
   unfold encodeContract at h
   simp only [] at h
-  split at h
-  · split at h
-    · simp at h
-    · split at h
-      · simp at h
-      · rename_i ho
-        have : o = encObserve s := by simpa using ho
-        rw [this]; rfl
+  rw [if_neg h0] at h
   · split at h
     · split at h
       · simp at h
@@ -384,11 +396,11 @@ theorem encAdopt_settings {s : EncSt} {f b ret : Int} {o : EncObs} (h : encodeCo
     returned and the fields observed afterwards. -/
 inductive EncEv
   | ctl (r : EncReq)
-  | encode (frameSize outDataBytes ret : Int) (o : EncObs)
+  | encode (frameSize outDataBytes ret : Int) (o : EncObs) (fmt : Nat)   -- fmt: 0/1/2 = opus_encode / 24 / float
 
 def encApply (s : EncSt) : EncEv → EncSt
   | .ctl r => (encCtl s r).1
-  | .encode _ _ _ o => encAdopt s o
+  | .encode _ _ _ o _ => encAdopt s o
 
 /-- The encode calls of the history satisfy the monitored contract (checked on the implementation
     after every call by suites `ctl-rand`, `ctl-chain`). -/
@@ -397,7 +409,7 @@ def encRunOk : EncSt → List EncEv → Prop
   | s, e :: es =>
     (match e with
      | .ctl _ => True
-     | .encode f b r o => encodeContract s f b r o = none) ∧ encRunOk (encApply s e) es
+     | .encode f b r o fmt => encodeContract s f b r o fmt = none) ∧ encRunOk (encApply s e) es
 
 def encRun : EncSt → List EncEv → EncSt
   | s, [] => s
@@ -411,6 +423,6 @@ theorem encRun_inv {s : EncSt} (hi : EncInv s) (evs : List EncEv) (hok : encRunO
     apply ih _ h2
     cases e with
     | ctl r => exact encCtl_inv hi r
-    | encode f b r o => exact encAdopt_inv hi h1
+    | encode f b r o fmt => exact encAdopt_inv hi h1
 
 end Opus.Ctl
